@@ -259,7 +259,10 @@ def merge_val(c, a, b, name="m"):
         return ObjV(cls, fields)
     if isinstance(a, ListV) and isinstance(b, ListV):
         if len(a.items) == len(b.items) and all(z3.is_true(g) for g, _ in a.items + b.items):
-            return ListV((z3.BoolVal(True), merge_val(c, x, y, name)) for (_, x), (_, y) in zip(a.items, b.items))
+            try:
+                return ListV((z3.BoolVal(True), merge_val(c, x, y, name)) for (_, x), (_, y) in zip(a.items, b.items))
+            except Unsupported:
+                pass        # elements of unrelated shapes: keep both lists, guarded
         out = []
         i = 0
         while i < len(a.items) and i < len(b.items) and a.items[i][1] is b.items[i][1] \
